@@ -2,12 +2,12 @@
 package main
 
 import (
-	"runtime/debug"
-	"runtime/pprof"
 	"encoding/json"
 	"flag"
 	"fmt"
 	"os"
+	"runtime/debug"
+	"runtime/pprof"
 	"strconv"
 	"strings"
 
